@@ -109,6 +109,21 @@ func genFramePlan(seed uint64, thorough bool) *Plan {
 			case 10:
 				// error replies that quote client input
 				a = []string{g.pick("NOSUCH", "FOO\r\nBAR", "X\nY", "\r\n"), g.nasty(), g.nasty()}
+				if g.chance(2) {
+					// ... in every position an error message may quote: unknown
+					// subcommands, option names, user names, numbers that do not parse
+					n1, n2 := g.pick("a\r\nb", "x\r\n+OK", "\r\n", "\n", "q\rz", "nobody\r\n:1"), g.nasty()
+					shapes := [][]string{
+						{"CLIENT", n1}, {"CLIENT", n1, n2}, {"COMMAND", n1}, {"COMMAND", n1, n2},
+						{"CLIENT", "KILL", "USER", n1}, {"CLIENT", "KILL", "TYPE", n1}, {"CLIENT", "KILL", n1, n2}, {"CLIENT", "KILL", "ID", n1},
+						{"CLIENT", "SETNAME", n1}, {"CLIENT", "NO-EVICT", n1}, {"CLIENT", "UNBLOCK", n1}, {"CLIENT", "UNBLOCK", "1", n1},
+						{"COMMAND", "INFO", n1}, {"COMMAND", "DOCS", n1}, {"COMMAND", "LIST", "FILTERBY", n1, n2}, {"COMMAND", "GETKEYS", n1, n2},
+						{"HELLO", n1}, {"SELECT", n1}, {"SET", g.key(), "v", n1}, {"SET", g.key(), "v", "EX", n1}, {"EXPIRE", g.key(), n1},
+						{"INCRBY", g.key(), n1}, {"LRANGE", g.key(), n1, "1"}, {"OBJECT", n1, g.key()}, {"CONFIG", n1, n2}, {"INFO", n1},
+						{"HINCRBY", g.key(), "f", n1}, {"LINSERT", g.key(), n1, "a", "b"}, {"LMOVE", g.key(), g.key(), n1, n2}, {"SETRANGE", g.key(), n1, "x"},
+					}
+					a = shapes[g.r.IntN(len(shapes))]
+				}
 			case 11:
 				a = []string{g.pick("GET", "SET", "LPUSH", "HSET", "EXPIRE"), g.key()}[:1+g.r.IntN(2)]
 			case 12:
@@ -194,8 +209,14 @@ func (c *frameChecker) OnReply(w *World, op *Op) *Violation {
 	argv := strs(op.Item.Args)
 	exp := m.Apply(c.sess[op.Client], w.WallNow().UnixNano(), argv)
 	if !ModelKnows(argv[0]) {
-		// unknown command: an error reply
-		exp = eErr("*")
+		switch strings.ToLower(argv[0]) {
+		case "info", "command", "config", "object", "hello", "debug":
+			// implemented by the emulator, not modelled: framing is all that is checked
+			exp = Expect{Mode: exAny}
+		default:
+			// unknown command: an error reply
+			exp = eErr("*")
+		}
 	}
 	if err := exp.Match(op.Reply); err != nil {
 		return &Violation{Oracle: "reply", Step: w.step, Fp: "reply:" + strings.ToLower(clipS(argv[0], 12)) + ":" + op.Reply.K.String(),
